@@ -215,13 +215,13 @@ bool Model::do_add(int c, const JV &req, const JV &params) {
 	e.cg = group_names(access, "callGroups", all_groups);
 	if (path->s.empty()) host->probe("empty_path");
 	bool either = allow_either_add && (long)elems.size() >= (1L << (g_variant.element_order - 1));
-	if (add_local_only) { either = true; host->probe("add_from_local_origin"); }
+	if (add_local_only) host->probe("add_from_local_origin");   // loopback and local-socket origins are the ones add is accepted from: no special treatment
 	if (faulty_add_either && !host->observable(c)) { either = true; host->probe("add_by_faulty_peer"); }   // the add of a peer that cannot be served may fail on its own notification; what the others are told decides // the statement only says add is accepted *only* from local origins: a local origin may still be refused
 	elems[e.path] = e;
 	if (!either) {
 		notify_hit_unobservable = false;
 		notify(e, "add");
-		respond(c, req, notify_hit_unobservable ? Exp::R_OK_OR_ERR : Exp::R_TRUE, "C04", "add of free path " + e.path);
+		respond(c, req, notify_hit_unobservable ? Exp::R_OK_OR_ERR : Exp::R_TRUE, add_local_only ? "C08" : "C04", std::string(add_local_only ? "add from a local origin, of free path " : "add of free path ") + e.path);
 		return true;
 	}
 	// capacity reached: the daemon may refuse with an internal error; follow its answer
